@@ -489,7 +489,8 @@ package rockredis
 //@ interface (github.com/youzan/ZanRedisDB/engine.KVEngine).Write func(e engine.KVEngine, wb engine.WriteBatch) error
 //@   ensures result != errTooMuchBatchSize
 //@   ensures ghost(commits, e) == old(ghost(commits, e)) + 1 && ghost(cputs, e) == ghost(wbputs, wb) && ghost(cdels, e) == ghost(wbdels, wb) && ghost(cver, e) == ghost(wbver, wb)
-//@   modifies ghost(commits, e), ghost(cputs, e), ghost(cdels, e), ghost(cver, e)
+//@   ensures ghost(werrs, e) == old(ghost(werrs, e)) + ite(result != nil, 1, 0)
+//@   modifies ghost(commits, e), ghost(cputs, e), ghost(cdels, e), ghost(cver, e), ghost(werrs, e)
 //@ func (db *RockDB) IncrTableKeyCount(table []byte, delta int64, wb engine.WriteBatch)
 //@   trusted table key counter (merge operand)
 //@   ensures ghost(tblcnt, db) == old(ghost(tblcnt, db)) + delta
@@ -518,7 +519,7 @@ package rockredis
 //@   ensures result == nil && ghost(curexists, db) == 1 ==> ghost(commits, db.rockEng) == old(ghost(commits, db.rockEng)) + 1
 //@   ensures ghost(wbputs, db.wb) == 0 && ghost(wbdels, db.wb) == 0
 //@   ensures ghost(curexists, db) == 1 && 1 <= len(key) && len(key) <= MaxKeySize && result != nil ==> ghost(commits, db.rockEng) == old(ghost(commits, db.rockEng)) + 1
-//@   modifies ghost(wbputs, _), ghost(wbdels, _), ghost(lmhead, db), ghost(lmtail, db), ghost(lmsets, db), ghost(ldeletes, db), ghost(commits, _), ghost(cputs, _), ghost(cdels, _), ghost(tblcnt, db), ghost(expdels, _), ghost(wbver, _), ghost(cver, _)
+//@   modifies ghost(wbputs, _), ghost(wbdels, _), ghost(lmhead, db), ghost(lmtail, db), ghost(lmsets, db), ghost(ldeletes, db), ghost(commits, _), ghost(cputs, _), ghost(cdels, _), ghost(tblcnt, db), ghost(expdels, _), ghost(wbver, _), ghost(cver, _), ghost(werrs, _)
 //@   loop 1
 //@   invariant 0 <= i && i <= start
 //@   loop 2
@@ -554,7 +555,7 @@ package rockredis
 //@   requires r != nil && r.wb != nil
 //@   ensures ghost(commits, r.rockEng) == old(ghost(commits, r.rockEng)) + 1 && ghost(cputs, r.rockEng) == old(ghost(wbputs, r.wb)) && ghost(cdels, r.rockEng) == old(ghost(wbdels, r.wb)) && ghost(cver, r.rockEng) == old(ghost(wbver, r.wb))
 //@   ensures ghost(wbputs, r.wb) == 0 && ghost(wbdels, r.wb) == 0
-//@   modifies r.isBatching, ghost(commits, r.rockEng), ghost(cputs, r.rockEng), ghost(cdels, r.rockEng), ghost(wbputs, r.wb), ghost(wbdels, r.wb), ghost(wbver, r.wb), ghost(cver, r.rockEng)
+//@   modifies r.isBatching, ghost(commits, r.rockEng), ghost(cputs, r.rockEng), ghost(cdels, r.rockEng), ghost(wbputs, r.wb), ghost(wbdels, r.wb), ghost(wbver, r.wb), ghost(cver, r.rockEng), ghost(werrs, r.rockEng)
 
 // the live length of the stored string: an expired value is dead (C10), an absent one is empty
 //@ spec kvLive(db *RockDB) int = ite(ghost(kvexpired, db) == 1, 0, ghost(kvlen, db))
@@ -572,7 +573,7 @@ package rockredis
 //@   ensures len(value) == 0 ==> result0 == kvLive(db)
 //@   ensures offset < 0 && len(value) > 0 ==> result1 != nil
 //@   ensures ghost(wbputs, db.wb) == 0 && ghost(wbdels, db.wb) == 0
-//@   modifies db.isBatching, ghost(commits, _), ghost(cputs, _), ghost(cdels, _), ghost(wbputs, _), ghost(wbdels, _), ghost(tblcnt, db), ghost(wbver, _), ghost(cver, _), alloftype(headerMetaValue)
+//@   modifies db.isBatching, ghost(commits, _), ghost(cputs, _), ghost(cdels, _), ghost(wbputs, _), ghost(wbdels, _), ghost(tblcnt, db), ghost(wbver, _), ghost(cver, _), alloftype(headerMetaValue), ghost(werrs, _)
 
 // APPEND key value: the reply is the new length = live old length + len(value)
 //@ func (db *RockDB) Append(ts int64, rawKey []byte, value []byte) (int64, error)
@@ -584,7 +585,7 @@ package rockredis
 //@   ensures len(value) == 0 ==> result1 == nil && ghost(commits, db.rockEng) == old(ghost(commits, db.rockEng))
 //@   ensures len(value) == 0 ==> result0 == kvLive(db)
 //@   ensures ghost(wbputs, db.wb) == 0 && ghost(wbdels, db.wb) == 0
-//@   modifies db.isBatching, ghost(commits, _), ghost(cputs, _), ghost(cdels, _), ghost(wbputs, _), ghost(wbdels, _), ghost(tblcnt, db), ghost(wbver, _), ghost(cver, _), alloftype(headerMetaValue)
+//@   modifies db.isBatching, ghost(commits, _), ghost(cputs, _), ghost(cdels, _), ghost(wbputs, _), ghost(wbdels, _), ghost(tblcnt, db), ghost(wbver, _), ghost(cver, _), alloftype(headerMetaValue), ghost(werrs, _)
 
 // GETRANGE normalisation (Redis): negative indexes count from the end, then both are clamped into [0, len-1]
 //@ func getRange(start int64, end int64, valLen int64) (int64, int64)
@@ -665,7 +666,7 @@ package rockredis
 //@   ensures result != errTooMuchBatchSize
 //@   ensures r.isBatching == 1 ==> result == nil && ghost(wbputs, r.wb) == old(ghost(wbputs, r.wb)) && ghost(wbdels, r.wb) == old(ghost(wbdels, r.wb)) && ghost(commits, r.rockEng) == old(ghost(commits, r.rockEng))
 //@   ensures r.isBatching != 1 ==> ghost(commits, r.rockEng) == old(ghost(commits, r.rockEng)) + 1 && ghost(cputs, r.rockEng) == old(ghost(wbputs, r.wb)) && ghost(cdels, r.rockEng) == old(ghost(wbdels, r.wb)) && ghost(wbputs, r.wb) == 0 && ghost(wbdels, r.wb) == 0
-//@   modifies ghost(commits, r.rockEng), ghost(cputs, r.rockEng), ghost(cdels, r.rockEng), ghost(wbputs, r.wb), ghost(wbdels, r.wb), ghost(wbver, r.wb), ghost(cver, r.rockEng)
+//@   modifies ghost(commits, r.rockEng), ghost(cputs, r.rockEng), ghost(cdels, r.rockEng), ghost(wbputs, r.wb), ghost(wbdels, r.wb), ghost(wbver, r.wb), ghost(cver, r.rockEng), ghost(werrs, r.rockEng)
 
 // the stored size moves by exactly delta (never below 0); size 0 removes the size key, so a collection
 // exists iff it has at least one element. ghost(sizedelta, db) / ghost(newsize, db) record the last update
@@ -691,7 +692,7 @@ package rockredis
 //@   ensures result == nil && len(args) > 0 ==> ghost(newsize, db) >= ghost(sizedelta, db)
 //@   ensures result == errTooMuchBatchSize || len(args) == 0 ==> ghost(wbputs, db.wb) == old(ghost(wbputs, db.wb)) && ghost(wbdels, db.wb) == old(ghost(wbdels, db.wb)) && ghost(commits, db.rockEng) == old(ghost(commits, db.rockEng))
 //@   ensures len(args) > MAX_BATCH_NUM ==> result == errTooMuchBatchSize
-//@   modifies ghost(wbputs, _), ghost(wbdels, _), ghost(commits, _), ghost(cputs, _), ghost(cdels, _), ghost(misses, db), ghost(hits, db), ghost(sizedelta, db), ghost(newsize, db), ghost(tblcnt, db), alloftype(headerMetaValue), ghost(wbver, _), ghost(cver, _), ghost(sizeupds, db), ghost(readerrs, db)
+//@   modifies ghost(wbputs, _), ghost(wbdels, _), ghost(commits, _), ghost(cputs, _), ghost(cdels, _), ghost(misses, db), ghost(hits, db), ghost(sizedelta, db), ghost(newsize, db), ghost(tblcnt, db), alloftype(headerMetaValue), ghost(wbver, _), ghost(cver, _), ghost(sizeupds, db), ghost(readerrs, db), ghost(werrs, _)
 //@   loop 1
 //@   invariant 0 <= i && i <= len(args) && num == ghost(misses, db) - old(ghost(misses, db)) && num >= 0 && num <= i && err == nil && (value == nil || (fresh(value) && disjoint(value, keyInfo.OldHeader.UserData)))
 //@   invariant (len(keyInfo.OldHeader.UserData) == 0 || len(keyInfo.OldHeader.UserData) == 8) && storedSize(keyInfo.OldHeader.UserData) >= 0 && storedSize(keyInfo.OldHeader.UserData) < 4611686018427387904
@@ -766,7 +767,7 @@ package rockredis
 //@   ensures result1 == nil ==> ghost(commits, db.rockEng) == old(ghost(commits, db.rockEng)) + 1
 //@   ensures len(args) > MAX_BATCH_NUM ==> result1 == errTooMuchBatchSize && ghost(commits, db.rockEng) == old(ghost(commits, db.rockEng))
 //@   ensures ghost(wbputs, db.wb) == 0 && ghost(wbdels, db.wb) == 0
-//@   modifies ghost(wbputs, _), ghost(wbdels, _), ghost(commits, _), ghost(cputs, _), ghost(cdels, _), ghost(misses, db), ghost(hits, db), ghost(sizedelta, db), ghost(newsize, db), ghost(tblcnt, db), alloftype(headerMetaValue), ghost(wbver, _), ghost(cver, _), ghost(sizeupds, db), ghost(readerrs, db)
+//@   modifies ghost(wbputs, _), ghost(wbdels, _), ghost(commits, _), ghost(cputs, _), ghost(cdels, _), ghost(misses, db), ghost(hits, db), ghost(sizedelta, db), ghost(newsize, db), ghost(tblcnt, db), alloftype(headerMetaValue), ghost(wbver, _), ghost(cver, _), ghost(sizeupds, db), ghost(readerrs, db), ghost(werrs, _)
 //@   loop 1
 //@   invariant 0 <= i && i <= len(args) && num == ghost(misses, db) - old(ghost(misses, db)) && num >= 0 && num <= i && ghost(wbputs, wb) == num && ghost(wbdels, wb) == 0
 //@   invariant (len(oldh.UserData) == 0 || len(oldh.UserData) >= 8) && setSize(oldh.UserData) >= 0 && setSize(oldh.UserData) < 4611686018427387904
@@ -781,7 +782,7 @@ package rockredis
 //@   ensures len(args) == 0 ==> result0 == 0 && result1 == nil && ghost(commits, db.rockEng) == old(ghost(commits, db.rockEng))
 //@   ensures len(args) > MAX_BATCH_NUM ==> result1 == errTooMuchBatchSize && ghost(commits, db.rockEng) == old(ghost(commits, db.rockEng))
 //@   ensures ghost(wbputs, db.wb) == 0 && ghost(wbdels, db.wb) == 0
-//@   modifies ghost(wbputs, _), ghost(wbdels, _), ghost(commits, _), ghost(cputs, _), ghost(cdels, _), ghost(misses, db), ghost(hits, db), ghost(sizedelta, db), ghost(newsize, db), ghost(tblcnt, db), ghost(expdels, _), alloftype(headerMetaValue), ghost(wbver, _), ghost(cver, _), ghost(sizeupds, db), ghost(readerrs, db)
+//@   modifies ghost(wbputs, _), ghost(wbdels, _), ghost(commits, _), ghost(cputs, _), ghost(cdels, _), ghost(misses, db), ghost(hits, db), ghost(sizedelta, db), ghost(newsize, db), ghost(tblcnt, db), ghost(expdels, _), alloftype(headerMetaValue), ghost(wbver, _), ghost(cver, _), ghost(sizeupds, db), ghost(readerrs, db), ghost(werrs, _)
 //@   loop 1
 //@   invariant 0 <= i && i <= len(args) && num == ghost(hits, db) - old(ghost(hits, db)) && num >= 0 && num <= i && ghost(wbdels, wb) == num && ghost(wbputs, wb) == 0
 //@   invariant (len(oldh.UserData) == 0 || len(oldh.UserData) >= 8) && setSize(oldh.UserData) >= 0 && setSize(oldh.UserData) < 4611686018427387904
@@ -793,7 +794,7 @@ package rockredis
 //@   ensures len(args) == 0 ==> result0 == 0 && result1 == nil
 //@   ensures result1 == errTooMuchBatchSize || len(args) == 0 ==> ghost(wbputs, db.wb) == old(ghost(wbputs, db.wb)) && ghost(wbdels, db.wb) == old(ghost(wbdels, db.wb)) && ghost(commits, db.rockEng) == old(ghost(commits, db.rockEng))
 //@   ensures len(args) > MAX_BATCH_NUM ==> result1 == errTooMuchBatchSize
-//@   modifies ghost(wbputs, _), ghost(wbdels, _), ghost(commits, _), ghost(cputs, _), ghost(cdels, _), ghost(misses, db), ghost(hits, db), ghost(sizedelta, db), ghost(newsize, db), ghost(tblcnt, db), ghost(expdels, _), alloftype(headerMetaValue), ghost(wbver, _), ghost(cver, _), ghost(sizeupds, db), ghost(readerrs, db)
+//@   modifies ghost(wbputs, _), ghost(wbdels, _), ghost(commits, _), ghost(cputs, _), ghost(cdels, _), ghost(misses, db), ghost(hits, db), ghost(sizedelta, db), ghost(newsize, db), ghost(tblcnt, db), ghost(expdels, _), alloftype(headerMetaValue), ghost(wbver, _), ghost(cver, _), ghost(sizeupds, db), ghost(readerrs, db), ghost(werrs, _)
 //@   loop 1
 //@   invariant 0 <= i && i <= len(args) && num == ghost(hits, db) - old(ghost(hits, db)) && num >= 0 && num <= i
 //@   invariant (len(oldh.UserData) == 0 || len(oldh.UserData) == 8) && storedSize(oldh.UserData) >= 0 && storedSize(oldh.UserData) < 4611686018427387904
@@ -882,7 +883,7 @@ package rockredis
 //@   ensures len(args) == 0 ==> result0 == 0 && result1 == nil && ghost(commits, db.rockEng) == old(ghost(commits, db.rockEng))
 //@   ensures len(args) > MAX_BATCH_NUM ==> result1 == errTooMuchBatchSize && ghost(commits, db.rockEng) == old(ghost(commits, db.rockEng))
 //@   ensures ghost(wbputs, db.wb) == 0 && ghost(wbdels, db.wb) == 0
-//@   modifies ghost(wbputs, _), ghost(wbdels, _), ghost(wbver, _), ghost(commits, _), ghost(cputs, _), ghost(cdels, _), ghost(misses, db), ghost(hits, db), ghost(sizedelta, db), ghost(newsize, db), ghost(tblcnt, db), alloftype(headerMetaValue), ghost(cver, _), ghost(sizeupds, db), ghost(readerrs, db)
+//@   modifies ghost(wbputs, _), ghost(wbdels, _), ghost(wbver, _), ghost(commits, _), ghost(cputs, _), ghost(cdels, _), ghost(misses, db), ghost(hits, db), ghost(sizedelta, db), ghost(newsize, db), ghost(tblcnt, db), alloftype(headerMetaValue), ghost(cver, _), ghost(sizeupds, db), ghost(readerrs, db), ghost(werrs, _)
 //@   loop 1
 //@   invariant 0 <= i && i <= len(args) && num == ghost(misses, db) - old(ghost(misses, db)) && num >= 0 && num <= i
 //@   invariant (len(keyInfo.OldHeader.UserData) == 0 || len(keyInfo.OldHeader.UserData) >= 8) && setSize(keyInfo.OldHeader.UserData) >= 0 && setSize(keyInfo.OldHeader.UserData) < 4611686018427387904
@@ -895,7 +896,7 @@ package rockredis
 //@   ensures len(members) == 0 ==> result0 == 0 && result1 == nil && ghost(commits, db.rockEng) == old(ghost(commits, db.rockEng))
 //@   ensures len(members) > MAX_BATCH_NUM ==> result1 == errTooMuchBatchSize && ghost(commits, db.rockEng) == old(ghost(commits, db.rockEng))
 //@   ensures ghost(wbputs, db.wb) == 0 && ghost(wbdels, db.wb) == 0
-//@   modifies ghost(wbputs, _), ghost(wbdels, _), ghost(wbver, _), ghost(commits, _), ghost(cputs, _), ghost(cdels, _), ghost(misses, db), ghost(hits, db), ghost(sizedelta, db), ghost(newsize, db), ghost(tblcnt, db), ghost(expdels, _), alloftype(headerMetaValue), ghost(cver, _), ghost(sizeupds, db), ghost(readerrs, db)
+//@   modifies ghost(wbputs, _), ghost(wbdels, _), ghost(wbver, _), ghost(commits, _), ghost(cputs, _), ghost(cdels, _), ghost(misses, db), ghost(hits, db), ghost(sizedelta, db), ghost(newsize, db), ghost(tblcnt, db), ghost(expdels, _), alloftype(headerMetaValue), ghost(cver, _), ghost(sizeupds, db), ghost(readerrs, db), ghost(werrs, _)
 //@   loop 1
 //@   invariant 0 <= i && i <= len(members) && num == ghost(hits, db) - old(ghost(hits, db)) && num >= 0 && num <= i && ghost(wbdels, wb) == 2 * num && ghost(wbputs, wb) == 0
 //@   invariant (len(keyInfo.OldHeader.UserData) == 0 || len(keyInfo.OldHeader.UserData) >= 8) && setSize(keyInfo.OldHeader.UserData) >= 0 && setSize(keyInfo.OldHeader.UserData) < 4611686018427387904
@@ -921,7 +922,7 @@ package rockredis
 //@   ensures result1 == nil && len(args) > 0 ==> ghost(commits, db.rockEng) == old(ghost(commits, db.rockEng)) + 1 && ghost(cputs, db.rockEng) == len(args) + 1 && ghost(cdels, db.rockEng) == 0
 //@   ensures len(args) == 0 && result1 == nil ==> result0 == ghost(lpsize, db) && ghost(commits, db.rockEng) == old(ghost(commits, db.rockEng))
 //@   ensures ghost(wbputs, db.wb) == 0 && ghost(wbdels, db.wb) == 0
-//@   modifies ghost(wbputs, _), ghost(wbdels, _), ghost(wbver, _), ghost(commits, _), ghost(cputs, _), ghost(cdels, _), ghost(misses, db), ghost(hits, db), ghost(lmhead, db), ghost(lmtail, db), ghost(lmsets, db), ghost(tblcnt, db), alloftype(headerMetaValue), ghost(cver, _), ghost(readerrs, db), ghost(lphead, db), ghost(lptail, db), ghost(lpsize, db)
+//@   modifies ghost(wbputs, _), ghost(wbdels, _), ghost(wbver, _), ghost(commits, _), ghost(cputs, _), ghost(cdels, _), ghost(misses, db), ghost(hits, db), ghost(lmhead, db), ghost(lmtail, db), ghost(lmsets, db), ghost(tblcnt, db), alloftype(headerMetaValue), ghost(cver, _), ghost(readerrs, db), ghost(lphead, db), ghost(lptail, db), ghost(lpsize, db), ghost(werrs, _)
 //@   loop 1
 //@   invariant 0 <= i && i <= pushCnt && pushCnt == len(args) && ghost(wbputs, wb) == i && ghost(wbdels, wb) == 0 && ghost(lmsets, db) == old(ghost(lmsets, db)) && ghost(commits, db.rockEng) == old(ghost(commits, db.rockEng))
 
@@ -936,7 +937,7 @@ package rockredis
 //@   ensures result1 == nil && result0 == nil ==> ghost(commits, db.rockEng) == old(ghost(commits, db.rockEng))
 //@   ensures ghost(curexists, db) == 0 && 1 <= len(key) && len(key) <= MaxKeySize ==> result0 == nil && ghost(commits, db.rockEng) == old(ghost(commits, db.rockEng))
 //@   ensures ghost(wbputs, db.wb) == 0 && ghost(wbdels, db.wb) == 0
-//@   modifies ghost(wbputs, _), ghost(wbdels, _), ghost(wbver, _), ghost(commits, _), ghost(cputs, _), ghost(cdels, _), ghost(misses, db), ghost(hits, db), ghost(lmhead, db), ghost(lmtail, db), ghost(lmsets, db), ghost(tblcnt, db), ghost(expdels, _), ghost(cver, _), ghost(readerrs, db)
+//@   modifies ghost(wbputs, _), ghost(wbdels, _), ghost(wbver, _), ghost(commits, _), ghost(cputs, _), ghost(cdels, _), ghost(misses, db), ghost(hits, db), ghost(lmhead, db), ghost(lmtail, db), ghost(lmsets, db), ghost(tblcnt, db), ghost(expdels, _), ghost(cver, _), ghost(readerrs, db), ghost(werrs, _)
 
 // the element position a Redis list index denotes: index >= 0 counts from the head, index < 0 from the tail
 //@ spec lSeq(head int, llen int, index int) int = ite(index >= 0, head + index, head + llen + index)
@@ -958,7 +959,7 @@ package rockredis
 //@   ensures result == nil ==> ghost(lmhead, db) == ghost(curhead, db) && ghost(lmtail, db) == ghost(curhead, db) + ghost(curlen, db) - 1
 //@   ensures result == nil ==> bst(db.wb, ghost(cver, db.rockEng), lKid(ghost(curtk, db), lSeq(ghost(curhead, db), ghost(curlen, db), index))) == 1
 //@   ensures ghost(wbputs, db.wb) == 0 && ghost(wbdels, db.wb) == 0
-//@   modifies db.isBatching, ghost(wbputs, _), ghost(wbdels, _), ghost(wbver, _), ghost(commits, _), ghost(cputs, _), ghost(cdels, _), ghost(cver, _), ghost(lmhead, db), ghost(lmtail, db), ghost(lmsets, db)
+//@   modifies db.isBatching, ghost(wbputs, _), ghost(wbdels, _), ghost(wbver, _), ghost(commits, _), ghost(cputs, _), ghost(cdels, _), ghost(cver, _), ghost(lmhead, db), ghost(lmtail, db), ghost(lmsets, db), ghost(werrs, _)
 
 // LINDEX: reads exactly the element position the index denotes, or nothing when the index is outside the list
 //@ func (db *RockDB) LIndex(key []byte, index int64) ([]byte, error)
@@ -1020,13 +1021,13 @@ package rockredis
 //@   ensures result1 == nil && updateOnly && ghost(kvexpired, db) == 1 ==> result0 == 0
 //@   ensures result0 == 0 && result1 == nil ==> ghost(wbputs, db.wb) == old(ghost(wbputs, db.wb)) && ghost(commits, db.rockEng) == old(ghost(commits, db.rockEng))
 //@   ensures result0 != 0 ==> result0 == 1
-//@   modifies ghost(wbputs, _), ghost(wbdels, _), ghost(wbver, _), ghost(commits, _), ghost(cputs, _), ghost(cdels, _), ghost(cver, _), ghost(tblcnt, db), ghost(kvttlset, db), ghost(expdels, _), alloftype(headerMetaValue)
+//@   modifies ghost(wbputs, _), ghost(wbdels, _), ghost(wbver, _), ghost(commits, _), ghost(cputs, _), ghost(cdels, _), ghost(cver, _), ghost(tblcnt, db), ghost(kvttlset, db), ghost(expdels, _), alloftype(headerMetaValue), ghost(werrs, _)
 //@ func (db *RockDB) SetIfEQ(ts int64, rawKey []byte, oldV []byte, value []byte, duration int64) (int64, error)
 //@   requires db != nil && db.expiration != nil && db.wb != nil && ghost(kvlen, db) >= 0
 //@   callassert Put arg2 != nil && len(arg2) >= 8
 //@   ensures result0 == 0 || result0 == 1
 //@   ensures result0 == 0 && result1 == nil ==> ghost(wbputs, db.wb) == old(ghost(wbputs, db.wb)) && ghost(commits, db.rockEng) == old(ghost(commits, db.rockEng))
-//@   modifies ghost(wbputs, _), ghost(wbdels, _), ghost(wbver, _), ghost(commits, _), ghost(cputs, _), ghost(cdels, _), ghost(cver, _), ghost(tblcnt, db), ghost(kvttlset, db), ghost(expdels, _), alloftype(headerMetaValue)
+//@   modifies ghost(wbputs, _), ghost(wbdels, _), ghost(wbver, _), ghost(commits, _), ghost(cputs, _), ghost(cdels, _), ghost(cver, _), ghost(tblcnt, db), ghost(kvttlset, db), ghost(expdels, _), alloftype(headerMetaValue), ghost(werrs, _)
 
 // SET / SETEX / GETSET overwrite the whole value: the old expiry is dropped (ttl 0) or replaced by exactly the
 // requested one (absolute second = log time + duration); exactly one value is buffered
@@ -1040,16 +1041,16 @@ package rockredis
 //@   callassert resetWithNewKVValue arg4 == duration && arg1 == ts
 //@   ensures result == nil ==> ghost(kvttlset, db) == ite(duration > 0, duration + ts / 1000000000, 0)
 //@   ensures len(value) > MaxValueSize ==> result != nil && ghost(wbputs, db.wb) == old(ghost(wbputs, db.wb)) && ghost(wbver, db.wb) == old(ghost(wbver, db.wb))
-//@   modifies ghost(wbputs, _), ghost(wbdels, _), ghost(wbver, _), ghost(commits, _), ghost(cputs, _), ghost(cdels, _), ghost(cver, _), ghost(tblcnt, db), ghost(kvttlset, db), ghost(expdels, _), ghost(misses, db), ghost(hits, db), ghost(readerrs, db)
+//@   modifies ghost(wbputs, _), ghost(wbdels, _), ghost(wbver, _), ghost(commits, _), ghost(cputs, _), ghost(cdels, _), ghost(cver, _), ghost(tblcnt, db), ghost(kvttlset, db), ghost(expdels, _), ghost(misses, db), ghost(hits, db), ghost(readerrs, db), ghost(werrs, _)
 //@ func (db *RockDB) KVSet(ts int64, rawKey []byte, value []byte) error
 //@   requires db != nil && db.wb != nil && db.cfg != nil
 //@   ensures result == nil ==> ghost(kvttlset, db) == 0
-//@   modifies ghost(wbputs, _), ghost(wbdels, _), ghost(wbver, _), ghost(commits, _), ghost(cputs, _), ghost(cdels, _), ghost(cver, _), ghost(tblcnt, db), ghost(kvttlset, db), ghost(expdels, _), ghost(misses, db), ghost(hits, db), ghost(readerrs, db)
+//@   modifies ghost(wbputs, _), ghost(wbdels, _), ghost(wbver, _), ghost(commits, _), ghost(cputs, _), ghost(cdels, _), ghost(cver, _), ghost(tblcnt, db), ghost(kvttlset, db), ghost(expdels, _), ghost(misses, db), ghost(hits, db), ghost(readerrs, db), ghost(werrs, _)
 //@ func (db *RockDB) SetEx(ts int64, rawKey []byte, duration int64, value []byte) error
 //@   requires db != nil && db.wb != nil && db.cfg != nil
 //@   ensures duration <= 0 ==> result != nil && ghost(wbver, db.wb) == old(ghost(wbver, db.wb))
 //@   ensures result == nil ==> duration > 0 && ghost(kvttlset, db) == duration + ts / 1000000000
-//@   modifies ghost(wbputs, _), ghost(wbdels, _), ghost(wbver, _), ghost(commits, _), ghost(cputs, _), ghost(cdels, _), ghost(cver, _), ghost(tblcnt, db), ghost(kvttlset, db), ghost(expdels, _), ghost(misses, db), ghost(hits, db), ghost(readerrs, db)
+//@   modifies ghost(wbputs, _), ghost(wbdels, _), ghost(wbver, _), ghost(commits, _), ghost(cputs, _), ghost(cdels, _), ghost(cver, _), ghost(tblcnt, db), ghost(kvttlset, db), ghost(expdels, _), ghost(misses, db), ghost(hits, db), ghost(readerrs, db), ghost(werrs, _)
 
 // INCR / INCRBY: the reply is the live old number (0 for an absent or expired key) plus delta
 //@ spec numOf(b []byte) int
@@ -1067,7 +1068,7 @@ package rockredis
 //@   callassert encodeRealValueToDBRawValue arg2 == keyInfo.OldHeader && arg1 == ts
 //@   ensures result1 == nil && ghost(kvexpired, db) == 1 ==> result0 == delta
 //@   ensures result1 == nil ==> ghost(commits, db.rockEng) == old(ghost(commits, db.rockEng)) + 1 && ghost(cputs, db.rockEng) >= 1
-//@   modifies db.isBatching, ghost(wbputs, _), ghost(wbdels, _), ghost(wbver, _), ghost(commits, _), ghost(cputs, _), ghost(cdels, _), ghost(cver, _), ghost(tblcnt, db), alloftype(headerMetaValue)
+//@   modifies db.isBatching, ghost(wbputs, _), ghost(wbdels, _), ghost(wbver, _), ghost(commits, _), ghost(cputs, _), ghost(cdels, _), ghost(cver, _), ghost(tblcnt, db), alloftype(headerMetaValue), ghost(werrs, _)
 
 // EXPIRE family: the absolute expiry handed to the policy is log-time seconds + requested duration
 //@ interface (github.com/youzan/ZanRedisDB/rockredis.expiration).getRawValueForHeader func(e expiration, ts int64, dt byte, key []byte) ([]byte, error)
@@ -1176,4 +1177,4 @@ package rockredis
 //@   callassert Write bst(arg1, ghost(wbver, arg1), kid(sk)) == 1 && bst(arg1, ghost(wbver, arg1), kid(ek)) == 1
 //@   ensures result1 == nil && ghost(misses, db) != old(ghost(misses, db)) ==> ghost(sizedelta, db) == 1
 //@   ensures ghost(wbputs, db.wb) == 0 && ghost(wbdels, db.wb) == 0
-//@   modifies ghost(wbputs, _), ghost(wbdels, _), ghost(wbver, _), ghost(commits, _), ghost(cputs, _), ghost(cdels, _), ghost(cver, _), ghost(misses, db), ghost(hits, db), ghost(readerrs, db), ghost(sizedelta, db), ghost(newsize, db), ghost(sizeupds, db), ghost(tblcnt, db), alloftype(headerMetaValue)
+//@   modifies ghost(wbputs, _), ghost(wbdels, _), ghost(wbver, _), ghost(commits, _), ghost(cputs, _), ghost(cdels, _), ghost(cver, _), ghost(misses, db), ghost(hits, db), ghost(readerrs, db), ghost(sizedelta, db), ghost(newsize, db), ghost(sizeupds, db), ghost(tblcnt, db), alloftype(headerMetaValue), ghost(werrs, _)
